@@ -223,7 +223,8 @@ def lookup (db : Db) (h : Hash) : Option Bytes := (db.find? (fun e => e.1 == h))
 inductive DErr where
   | keyError (h : Hash)       -- `db[node_hash]` missing
   | invalidNode
-  | other                     -- assertion / index errors of `decode_to_bin_keypath`
+  | assertion                 -- the `assert` of `decode_to_bin_keypath`
+  | other                     -- IndexError of `decode_to_bin_keypath`
   | fuel
   deriving DecidableEq, Repr
 
@@ -237,7 +238,8 @@ def bgetD (blank : Hash) (db : Db) : Nat → Hash → Bits → Except DErr (Opti
       | some body =>
         match parseNode body with
         | .error .invalidNode => .error .invalidNode
-        | .error _ => .error .other
+        | .error .assertion => .error .assertion
+        | .error .index => .error .other
         | .ok (.leaf v) => if k ≠ [] then .ok none else .ok (some v)
         | .ok (.kv p c) =>
           if k = [] then .ok none
@@ -271,6 +273,7 @@ def ifBranchValid (H : Bytes → Bytes) (branch : List Bytes) (root : Hash) (key
     | .ok r => if r = value then .valid else .assertion
     | .error (.keyError _) => .keyError
     | .error .invalidNode => .invalidNode
+    | .error .assertion => .assertion
     | .error _ => .other
 
 end PyTrie.Bin
